@@ -15,6 +15,10 @@ FILE = "rspirv/binary/parser.rs"
 GEN = "rspirv/binary/autogen_parse_operand.rs"
 TRACKER = "rspirv/binary/tracker.rs"
 RLIMIT = 80
+# the Decoration (73 enumerants), ImageOperands (11 flags) and LoopControl (20 flags) functions exceed the
+# solver budget with the sequence-level clause; for them C17's agreement is checked by the exhaustive
+# replay sweep of unit operand_reflect only (finite domains), not by Verus
+C17_FNS = {"parse_memory_access_arguments", "parse_tensor_addressing_operands_arguments", "parse_execution_mode_arguments"}
 BIG = {"parse_operand", "parse_image_operands_arguments", "parse_loop_control_arguments", "parse_decoration_arguments",
        "parse_memory_access_arguments", "parse_execution_mode_arguments", "parse_tensor_addressing_operands_arguments"}
 
@@ -178,6 +182,49 @@ C["parse_inst"] = ("r", """requires old(self).decoder.wf(), old(self).decoder.li
                          && (err_offset(s) matches Some(eo) ==> o <= eo <= o + 4 * wc))) })) }),""" % FRAME)
 
 
+def emit_param_specs(g):
+    """C17: expected operand variants after a parameterised enumerant / mask value, generated from the
+    reflection side (dr::Operand::additional_operands, lifted by units/lift_reflect.py); the real
+    parse_*_arguments functions are proved against it (sequence in ascending bit order for masks)."""
+    from .lift_reflect import lift
+    from .assemble import operand_variants
+    from .kani_masks import mask_decls
+    variants = [v for v, _ in operand_variants()]
+    idx = {v: i for i, v in enumerate(variants)}
+
+    def tag_of_kind(k):
+        v = {"LiteralInteger": "LiteralBit32", "LiteralFloat": "LiteralBit32"}.get(k, k)
+        if v not in idx:
+            raise Lost("C17: no operand variant for parameter kind %s" % k)
+        return idx[v]
+    g.raw("// variant index of an operand (declaration order of dr::Operand, O1)\npub open spec fn tag(op: dr::Operand) -> int {\n    match op {\n%s\n    }\n}"
+          % "\n".join("        dr::Operand::%s(_) => %d," % (v, i) for i, v in enumerate(variants)))
+    g.raw("pub open spec fn tags_of(s: Seq<dr::Operand>) -> Seq<int> { Seq::new(s.len(), |i: int| tag(s[i])) }")
+    enums, masks = lift()
+    names = {}
+    for K, table in enums.items():
+        fn = "param_tags_%s" % K
+        names[K] = fn
+        g.raw("// C17: parameters of each %s enumerant as reported by additional_operands (lifted), as operand variants\n"
+              "pub open spec fn %s(v: spirv::%s) -> Seq<int> {\n    match v {\n%s\n        _ => Seq::empty(),\n    }\n}" % (
+                  K, fn, K, "\n".join("        spirv::%s::%s => seq![%s]," % (K, e, ", ".join("%dint" % tag_of_kind(k) for k, q in ops))
+                                       for e, ops in table.items() if ops)))
+    decls = dict(mask_decls())
+    for K, groups in masks.items():
+        fn = "param_tags_%s" % K
+        names[K] = fn
+        flagops = []
+        for flags, ops in groups:
+            for fl in flags:
+                flagops.append((dict(decls[K])[fl], fl, ops))
+        flagops.sort()
+        parts = ["(if v.bits_ & %du32 == %du32 { seq![%s] } else { Seq::<int>::empty() }) /* %s */" % (
+            bit, bit, ", ".join("%dint" % tag_of_kind(k) for k, q in ops), fl) for bit, fl, ops in flagops]
+        g.raw("// C17: parameters of a %s value in ascending bit order (flag -> parameters from additional_operands, lifted)\n"
+              "pub open spec fn %s(v: spirv::%s) -> Seq<int> {\n    %s\n}" % (K, fn, K, "\n    + ".join(parts) if parts else "Seq::empty()"))
+    return names
+
+
 def emit_tracker_stub(g):
     tsrc = Source.get(TRACKER)
     gt = Gen("tmp")
@@ -225,6 +272,7 @@ def build(tier="quick", must_fail=False):
     g.emit(fp, name="binary::parser::State::from(DecodeError)")
     g.raw(parser_protocol.SPEC.split("// l = the consumer's log")[0].replace("pub open spec fn is_consumer_state(s: State) -> bool { s is ConsumerStopRequested || s is ConsumerError }", ""))
     g.raw(SPEC)
+    param_fns = emit_param_specs(g)
     # Consumer trait with the ghost log (same text as unit parser_protocol) — parse_* never touch it
     tp = Piece(src.find("trait", "Consumer"))
     for name, ens in (("initialize", "final(self).log() == old(self).log().push(Event::Init(ans_of(a)))"),
@@ -347,7 +395,15 @@ pub fn unreachable_panic() -> (r: u32) requires false { unimplemented!() }
             def edit(p):
                 # ghost cut points between the sequential `if` blocks (keeps the query linear)
                 p.sub(r"(\n        \})(\n        if )", r"\1 proof { assert(step_inv(*old(self), *self)); }\2", "ghost-cut", required=False)
-            emit_fn(f, "r", ARGS, edit)
+            K = {"parse_image_operands_arguments": "ImageOperands", "parse_loop_control_arguments": "LoopControl",
+                 "parse_memory_access_arguments": "MemoryAccess", "parse_execution_mode_arguments": "ExecutionMode",
+                 "parse_decoration_arguments": "Decoration",
+                 "parse_tensor_addressing_operands_arguments": "TensorAddressingOperands"}.get(f.name)
+            argname = re.search(r"&mut self,\s*(\w+):", f.core_text).group(1)
+            extra = ""
+            if K in param_fns and f.name in C17_FNS:
+                extra = "\n        // C17: exactly the parameters reflection reports for this value, in order\n        r matches Ok(ops) ==> tags_of(ops@) =~= %s(%s)," % (param_fns[K], argname)
+            emit_fn(f, "r", ARGS + extra, edit)
     g.raw("}")
     g.n_generated = len(gfns)
     g.raw("} // mod parser")
